@@ -292,6 +292,29 @@ def judge_cut_effect(p, sm):
                 res[(cuts, method)] = (r, rec[method])
             if cuts:
                 dark = np.asarray(ToOEvent(cfg).sun_moon_cut(g.val_times()), dtype=bool)
+                # the aftermath of refused calls on the SAME thrown geometry (a channel name that does not exist; a radio
+                # call whose store callback fails), and repeated evaluations with decay lengths that are not zero: the
+                # optical integral is evaluated at each event time as before, and the stored path lengths stay what they were
+                L0 = np.array(g.pathLens(), dtype=float, copy=True).tobytes()
+                args = (np.full(n, 100.0), np.full(n, math.cos(math.radians(1.5))), np.full(n, 0.5), 10.0, 1.0, 1.0)
+
+                def boom(names, cols):
+                    raise RuntimeError("injected store failure")
+
+                for kw in (dict(method="Both"), dict(method="Radio", store=boom), dict(method="radio")):
+                    try:
+                        g.mcintegral(*args, lenDec=np.zeros(n), **kw)
+                    except Exception:
+                        pass
+                again = {}
+                r2 = g.mcintegral(*args, lenDec=np.zeros(n), method="Optical", store=lambda names, cols: again.__setitem__("c", np.array(cols[0], dtype=float)))
+                if not (r2[0] == res[(True, "Optical")][0][0] and r2[2] == res[(True, "Optical")][0][2] and again.get("c", np.zeros(0)).tobytes() == res[(True, "Optical")][1].tobytes()):
+                    out.append(("darksky_at_each_event_time_after_refused_calls", float(res[(True, "Optical")][0][0]), float(r2[0])))
+                reps = [g.mcintegral(*args, lenDec=np.full(n, 3.0), method=m) for m in ("Optical", "Radio", "Optical", "Radio")]
+                if not (reps[0][0] == reps[2][0] and reps[1][0] == reps[3][0] and reps[0][1] == reps[2][1] and reps[1][1] == reps[3][1]):
+                    out.append(("integral_repeatable_on_one_throw", [float(reps[0][0]), float(reps[1][1])], [float(reps[2][0]), float(reps[3][1])]))
+                if np.array(g.pathLens(), dtype=float).tobytes() != L0:
+                    out.append(("path_lengths_unchanged_by_the_integrals", "as thrown", "changed"))
     rO1, cO1 = res[(True, "Optical")]
     rO0, cO0 = res[(False, "Optical")]
     rR1, cR1 = res[(True, "Radio")]
